@@ -6,7 +6,7 @@ HOOKS = {
     "enable": "go1.26.8 test -tags verif (harness module /verif/harness, replace github.com/tsuna/gohbase => /repo); "
               "if the hook files are absent from /repo the driver injects copies with -overlay",
     "baseline_off_cmd": "cd /repo && go test -vet=off -count=1 -timeout 25m ./...",
-    "source_commits": ["4fc7d7a", "eb3db2f", "08a7e0b"],
+    "source_commits": ["4fc7d7a", "eb3db2f", "08a7e0b", "df90f0b"],
     "add_only": True,
 }
 
